@@ -314,8 +314,19 @@ class HistoryRunner:
                 mains.append((main, text))
             shared = ExplorerScriptSsbCompiler(T.PERF_VAR, ["lib"])
             order = [0, 1, 0] + ([2, 1] if len(mains) > 2 else [])
-            for j in order:
+            for n_, j in enumerate(order):
                 main, text = mains[j]
+                if (i + n_) % 2 == 0:
+                    # an editor compiles the UNSAVED buffer of the project's library (text as a string, file name the
+                    # path on disk); the buffer imports a file that does not exist yet, or the main file (a cycle):
+                    # the call fails inside the import phase - and must leave nothing behind in the compiler object
+                    lib = os.path.join(os.path.dirname(main), "lib", "common.exps")
+                    buf = ('import "./not_there_yet.exps";\n' if (i + n_) % 4 == 0 else 'import "../main.exps";\n') + "macro hello($a) { Draft($a); }\n"
+                    want_b = results.compile_result(buf, lib, compiler=ExplorerScriptSsbCompiler(T.PERF_VAR, ["lib"]))
+                    got_b = results.compile_result(buf, lib, compiler=shared)
+                    self._note(0, "raised" in got_b)
+                    if want_b.get("raised") != got_b.get("raised"):
+                        return Failure("history_dependent:two_projects_shared:unsaved_buffer", f"project {j}: unsaved library buffer: new compiler {want_b}, shared one {got_b}\nsteps={self.steps}")
                 want = results.compile_result(text, main, compiler=ExplorerScriptSsbCompiler(T.PERF_VAR, ["lib"]))
                 got = results.compile_result(text, main, compiler=shared)
                 self._note(0, "raised" in got)
